@@ -1,8 +1,22 @@
-"""C28 — bounded run-time contract check (see checks/C28_bounded.py for the contract and scope); proof kernel: see DESIGN §5 C28."""
-from vlib.thin import run_bounded_only
+"""C28 — event listeners fire exactly as registered: class-level collection inheritance (update_subclass) under proof,
+the registration/dispatch histories as the bounded complement."""
+import importlib
+import contracts.events  # noqa: F401
+from pyvc.contract import FUNCS
+from vlib.proof import run_proofs
+from vlib.bounded import run_bounded
 
-LEVEL = "exploration"
+LEVEL = "proof"
+KEYS = [k for k, c in FUNCS.items() if "C28" in c.props and c.proof and not c.abstract]
 
 
 def run(run, tier, seed, args):
-    run_bounded_only(run, "C28", tier, seed)
+    run_proofs(run, KEYS, tier, update_baseline=args.update_baseline, source_root=args.source_root)
+    if not args.source_root:
+        run_bounded(run, [k for k in KEYS if FUNCS[k].harness], tier)
+        importlib.import_module("checks.C28_bounded").bounded(run, tier, seed)
+    run.assumptions += [
+        "getattr(target, '_sa_propagate_class_events', True) is true (ordinary event targets); the _empty_collection arm is not under proof",
+        "the _clslevel WeakKeyDictionary is modelled as a dict (no entry disappears during the call)",
+        "under proof: _ClsLevelDispatch.update_subclass; _ListenerCollection / _EventKey / registry / exec_once are covered by the bounded complement only; concurrent exec-once is not decided",
+    ]
